@@ -1,0 +1,52 @@
+//go:build verif
+
+// Contracts for the verif build tag (read by /verif/govc; comment-only).
+package utils
+
+// ApplyClusterChanges, new namespaces: shard ids are taken from the generator and the
+// generator moves past them (ids are never handed out twice); a namespace that is
+// added gets every shard GenerateShards produced, with that shard's hash range, so its
+// shards cover the hash space exactly once (GenerateShards is proved to partition it),
+// each with the ensemble the supplier returned without error.
+//
+//@ func ApplyClusterChanges(config, currentStatus, ensembleSupplier) (newStatus, shardsToAdd, shardsToDelete)
+//@ property C18 C19
+//@ requires config != nil && currentStatus != nil && ensembleSupplier != nil && len(config.Servers) > 0 && len(config.Servers) < 4294967296
+//@ requires 0 <= currentStatus.ShardIdGenerator && currentStatus.ShardIdGenerator < 1099511627776 && len(config.Namespaces) <= 65536
+//@ requires forall i int :: 0 <= i && i < len(config.Namespaces) ==> 1 <= config.Namespaces[i].InitialShardCount && config.Namespaces[i].InitialShardCount <= 65536 && (config.Namespaces[i].InitialShardCount-1) * (4294967295/config.Namespaces[i].InitialShardCount + 1) <= 4294967295
+//@ callback ensembleSupplier pure
+//@ loop 0 modifies fresh
+//@ loop 0 invariant newStatus.ShardIdGenerator == old(currentStatus.ShardIdGenerator) && newStatus.Namespaces != nil && fresh(newStatus.Namespaces)
+//@ loop 1 modifies fresh
+//@ loop 1 invariant newStatus.Namespaces != nil && fresh(newStatus.Namespaces) && shardsToAdd != nil && fresh(shardsToAdd)
+//@ loop 1 invariant old(currentStatus.ShardIdGenerator) <= newStatus.ShardIdGenerator && newStatus.ShardIdGenerator <= old(currentStatus.ShardIdGenerator) + (rangeindex + 1) * 65536
+//@ loop 1 invariant forall id int64 :: inmap(shardsToAdd, id) ==> old(currentStatus.ShardIdGenerator) <= id && id < newStatus.ShardIdGenerator
+//@ loop 2 modifies fresh
+//@ loop 2 invariant newStatus.Namespaces != nil && fresh(newStatus.Namespaces) && shardsToAdd != nil && fresh(shardsToAdd) && nss.Shards != nil && fresh(nss.Shards)
+//@ loop 2 invariant newStatus.ShardIdGenerator == rangeslice[0].Id && len(rangeslice) == nc.InitialShardCount
+//@ loop 2 invariant forall j int :: 0 <= j && j < len(rangeslice) ==> rangeslice[j].Id == newStatus.ShardIdGenerator + j
+//@ loop 2 invariant forall j int :: 0 <= j && j <= rangeindex ==> inmap(nss.Shards, newStatus.ShardIdGenerator + j) && nss.Shards[newStatus.ShardIdGenerator + j].Int32HashRange.Min == rangeslice[j].Min && nss.Shards[newStatus.ShardIdGenerator + j].Int32HashRange.Max == rangeslice[j].Max
+//@ loop 2 invariant forall id int64 :: inmap(nss.Shards, id) ==> newStatus.ShardIdGenerator <= id && id < newStatus.ShardIdGenerator + nc.InitialShardCount
+//@ loop 2 invariant forall id int64 :: inmap(shardsToAdd, id) ==> old(currentStatus.ShardIdGenerator) <= id && id < newStatus.ShardIdGenerator
+//@ loop 3 modifies fresh
+//@ loop 3 invariant newStatus.Namespaces != nil && fresh(newStatus.Namespaces) && shardsToAdd != nil && fresh(shardsToAdd) && nss.Shards != nil && fresh(nss.Shards)
+//@ loop 3 invariant forall j int :: 0 <= j && j < nc.InitialShardCount ==> inmap(nss.Shards, newStatus.ShardIdGenerator + j)
+//@ loop 3 invariant forall id int64 :: inmap(nss.Shards, id) ==> newStatus.ShardIdGenerator <= id && id < newStatus.ShardIdGenerator + nc.InitialShardCount
+//@ loop 3 invariant forall id int64 :: inmap(shardsToAdd, id) ==> old(currentStatus.ShardIdGenerator) <= id && id < newStatus.ShardIdGenerator + nc.InitialShardCount
+//@ loop 4 modifies fresh
+//@ loop 4 invariant fresh(shardsToDelete)
+//@ loop 4 invariant newStatus.Namespaces != nil && fresh(newStatus.Namespaces) && newStatus.ShardIdGenerator >= old(currentStatus.ShardIdGenerator)
+//@ loop 4 invariant forall id int64 :: inmap(shardsToAdd, id) ==> old(currentStatus.ShardIdGenerator) <= id && id < newStatus.ShardIdGenerator
+//@ loop 5 modifies fresh
+//@ loop 5 invariant nss.Shards != nil && fresh(nss.Shards) && fresh(shardsToDelete)
+//@ ensures newStatus != nil && shardsToAdd != nil && newStatus.ShardIdGenerator >= old(currentStatus.ShardIdGenerator)
+//@ ensures forall id int64 :: inmap(shardsToAdd, id) ==> old(currentStatus.ShardIdGenerator) <= id && id < newStatus.ShardIdGenerator
+//@ modifies nothing
+
+//@ func findNamespaceConfig
+//@ property C18
+//@ requires config != nil
+//@ pure
+//@ nondet
+//@ loop 0 modifies fresh
+//@ modifies nothing
